@@ -346,6 +346,15 @@ void build(Ctx& ctx)
 		for (int i = 0; i < 40; ++i) { std::string n = std::string(1, char((i % 2 ? 'a' : 'A') + i % 26)) + "f" + std::to_string(i * 7 % 40) + (i % 3 ? ".dat" : ""); s.push_back({ 0, uint32_t(i * 37 % 23), i % 3, i % 4, n }); }
 		gSets.push_back(s);
 	}
+	// a 300-file set: the name table passes 4 KiB, the index table 4200 bytes
+	{
+		FileSet s;
+		for (int i = 0; i < 300; ++i) {
+			std::string n = std::string(1, char((i % 3 ? 'm' : 'M'))) + std::to_string((i * 77) % 300) + (i % 5 == 0 ? "_" : i % 5 == 1 ? "-" : "") + std::string(1, char('a' + i % 26)) + (i % 4 ? ".bin" : ".TXT");
+			s.push_back({ 0, uint32_t(i * 13 % 37), i % 3, i % 4, n });
+		}
+		gSets.push_back(s);
+	}
 #if VOL_CHECK == 1
 	gExtras.push_back({ 1000 });   // first: the longest case (about a second: 2 GiB of zeros copied between tmpfs files)
 	for (int k = 0; k < 14; ++k) gExtras.push_back({ k });
